@@ -192,6 +192,45 @@ func init() {
 
 	// ---- net helpers (native on concrete input) -------------------------------------------------
 	ext["net.ParseIP"] = func(fr *frame, a []value) value {
+		i := fr.i
+		if ss, ok := a[0].(*sstr); ok {
+			// attacker-controlled text reaching the IP parser (stated model, see C18 assumptions)
+			legal := func(b *Term) *Term {
+				in := func(lo, hi byte) *Term {
+					return i.ts.And(i.ts.Cmp(OpBVUle, i.ts.Const(uint64(lo), 8), b), i.ts.Cmp(OpBVUle, b, i.ts.Const(uint64(hi), 8)))
+				}
+				return i.ts.Or(i.ts.Or(in('0', '9'), in('a', 'f')), i.ts.Or(in('A', 'F'), i.ts.Or(i.ts.Eq(b, i.ts.Const('.', 8)), i.ts.Eq(b, i.ts.Const(':', 8)))))
+			}
+			bad := i.ts.ff
+			for _, b := range ss.b {
+				bad = i.ts.Or(bad, i.ts.Not(legal(i.toTerm(b, 8))))
+			}
+			if len(ss.b) == 0 || i.decide(bad) {
+				return []value(nil)
+			}
+			for _, lit := range []string{"::1", "1::1", "::1:1", "1::1:1", "6.6.6.6", "66.6.6.6", "66.66.6.6", "2606::1", "::"} {
+				if len(lit) != len(ss.b) {
+					continue
+				}
+				eq := i.strEq(ss, lit)
+				hit := false
+				switch e := eq.(type) {
+				case bool:
+					hit = e
+				case *Term:
+					hit = i.decide(e)
+				}
+				if hit {
+					ip := net.ParseIP(lit)
+					out := make([]value, len(ip))
+					for k, b := range ip {
+						out[k] = int64(b)
+					}
+					return out
+				}
+			}
+			panic(pathEnd{kind: "assume", msg: "attacker text made of IP-literal characters outside the modelled literals"})
+		}
 		ip := net.ParseIP(fr.i.cstr(a[0], "net.ParseIP"))
 		if ip == nil {
 			return []value(nil)
@@ -199,6 +238,36 @@ func init() {
 		out := make([]value, len(ip))
 		for k, b := range ip {
 			out[k] = int64(b)
+		}
+		return out
+	}
+	ext["net.ParseCIDR"] = func(fr *frame, a []value) value {
+		i := fr.i
+		str := i.cstr(a[0], "net.ParseCIDR")
+		ip, ipn, err := net.ParseCIDR(str)
+		if err != nil {
+			return tuple{[]value(nil), (*value)(nil), i.mkError(fr, "invalid CIDR address: "+str)}
+		}
+		bs := func(b []byte) []value {
+			out := make([]value, len(b))
+			for k, x := range b {
+				out[k] = int64(x)
+			}
+			return out
+		}
+		cell := new(value)
+		*cell = structure{bs(ipn.IP), bs(ipn.Mask)}
+		return tuple{bs(ip), cell, iface{}}
+	}
+	ext["net.CIDRMask"] = func(fr *frame, a []value) value {
+		i := fr.i
+		m := net.CIDRMask(i.cint(a[0], "ones"), i.cint(a[1], "bits"))
+		if m == nil {
+			return []value(nil)
+		}
+		out := make([]value, len(m))
+		for k, x := range m {
+			out[k] = int64(x)
 		}
 		return out
 	}
